@@ -114,6 +114,8 @@ func cmdRun(args []string) {
 	fo, _ := os.Create(filepath.Join(*outDir, "ops.txt"))
 	fi, _ := os.Create(filepath.Join(*outDir, "impl.txt"))
 	ff, _ := os.Create(filepath.Join(*outDir, "fails.jsonl"))
+	fa, _ := os.Create(filepath.Join(*outDir, "allops.txt")) // every line incl. the implementation-only ones (for the isolation differential)
+	wa := bufio.NewWriterSize(fa, 1<<20)
 	wo, wi, wf := bufio.NewWriterSize(fo, 1<<20), bufio.NewWriterSize(fi, 1<<20), bufio.NewWriter(ff)
 	st := runStats{PerOp: map[string]map[string]int{}, PerGen: map[string]int{}}
 	seen := map[string]bool{}
@@ -150,6 +152,7 @@ func cmdRun(args []string) {
 			}
 			st.Samples = append(st.Samples, s+" => "+trunc(out, 120))
 		}
+		fmt.Fprintf(wa, "%s\n", key)
 		if strings.HasPrefix(c.Op, "!") {
 			// implementation-only op: keep line numbering aligned with a placeholder the driver echoes
 			fmt.Fprintf(wo, "nop\n")
@@ -165,6 +168,8 @@ func cmdRun(args []string) {
 	wo.Flush()
 	wi.Flush()
 	wf.Flush()
+	wa.Flush()
+	fa.Close()
 	fo.Close()
 	fi.Close()
 	ff.Close()
